@@ -22,6 +22,10 @@ pub enum Fate {
     FailBeforeOutput(i32),
     /// Writes its output, then dies from SIGABRT.
     AbortAfterOutput,
+    /// Writes its whole output (consumed to EOF by ripgrep), then dies from
+    /// this signal - including SIGPIPE (13), which here is NOT the result of
+    /// ripgrep closing the pipe early.
+    SignalAfterOutput(i32),
     /// Output followed by >= 1.5 MB of filler: ripgrep is expected to stop
     /// reading early (match limit / -l / -q); the child is certainly blocked
     /// in write() when the pipe is closed and dies from SIGPIPE.
@@ -126,7 +130,8 @@ pub fn gen_workload(sub: u64) -> Workload {
                 0..=3 => Fate::Clean,
                 4 => Fate::NoisySuccess,
                 5 => Fate::StderrFlood,
-                6..=7 => Fate::FailAfterOutput([1, 2, 127, 255][rng.below(4)]),
+                6 => Fate::FailAfterOutput([1, 2, 127, 255, 141, 13][rng.below(6)]),
+                7 => Fate::SignalAfterOutput([13, 15, 9][rng.below(3)]),
                 8..=9 => Fate::FailBeforeOutput([1, 2, 127, 255][rng.below(4)]),
                 10 => Fate::AbortAfterOutput,
                 11 if kind != "zreal" => Fate::AbandonedByBinary,
@@ -163,6 +168,7 @@ fn script_for(f: &FileScript, shadow: &Path) -> String {
         Fate::FailAfterOutput(c) => format!("cat:{sp},exit:{c}"),
         Fate::FailBeforeOutput(c) => format!("exit:{c}"),
         Fate::AbortAfterOutput => format!("cat:{sp},abort"),
+        Fate::SignalAfterOutput(sig) => format!("cat:{sp},kill:{sig}"),
         Fate::AbandonedByBinary => format!("cat:{sp},fill:1600000"),
         Fate::Abandoned { noisy, ignore_sigpipe } => format!("{}{}cat:{sp},fill:1600000,exit:{}", if *ignore_sigpipe { "ignore_sigpipe," } else { "" }, if *noisy { "err:200," } else { "" }, if *ignore_sigpipe { 1 } else { 0 }),
     }
@@ -295,6 +301,7 @@ pub fn run_workload(sub: u64, acc: &mut Acc, ctx: &Ctx, _thorough: bool) {
             Fate::FailAfterOutput(_) => "exit-nonzero-after-output".into(),
             Fate::FailBeforeOutput(_) => "exit-nonzero-before-output".into(),
             Fate::AbortAfterOutput => "SIGABRT-after-output".into(),
+            Fate::SignalAfterOutput(s) => format!("signal-{s}-after-output"),
             Fate::AbandonedByBinary => "abandoned-by-binary-detection".into(),
             Fate::Abandoned { noisy, ignore_sigpipe } => format!("abandoned-by-early-stop{}{}", if *noisy { "+stderr-noise" } else { "" }, if *ignore_sigpipe { "+ignores-SIGPIPE" } else { "" }),
         }));
@@ -313,7 +320,7 @@ pub fn run_workload(sub: u64, acc: &mut Acc, ctx: &Ctx, _thorough: bool) {
     // delivered before the failure surfaced; nothing in count mode); all other
     // files contribute exactly the reference lines, in the same order.
     {
-        let failing: Vec<&str> = files.iter().filter(|f| f.through_child && matches!(f.fate, Fate::FailAfterOutput(_) | Fate::AbortAfterOutput)).map(|f| f.path.as_str()).chain(truncated_real.iter().map(|(p, _)| p.as_str())).collect();
+        let failing: Vec<&str> = files.iter().filter(|f| f.through_child && matches!(f.fate, Fate::FailAfterOutput(_) | Fate::AbortAfterOutput | Fate::SignalAfterOutput(_))).map(|f| f.path.as_str()).chain(truncated_real.iter().map(|(p, _)| p.as_str())).collect();
         let of = |l: &[u8], p: &str| l.starts_with(format!("w/{p}:").as_bytes()) || l == format!("w/{p}").as_bytes();
         let is_failing = |l: &[u8]| failing.iter().any(|p| of(l, p));
         let exp_other: Vec<&[u8]> = lines(&shadow_out.stdout).into_iter().filter(|l| !is_failing(l)).collect();
@@ -350,7 +357,7 @@ pub fn run_workload(sub: u64, acc: &mut Acc, ctx: &Ctx, _thorough: bool) {
                     must_not_err.push(&f.path)
                 }
             }
-            Fate::FailAfterOutput(_) | Fate::FailBeforeOutput(_) | Fate::AbortAfterOutput => must_err.push(&f.path),
+            Fate::FailAfterOutput(_) | Fate::FailBeforeOutput(_) | Fate::AbortAfterOutput | Fate::SignalAfterOutput(_) => must_err.push(&f.path),
             Fate::Abandoned { .. } | Fate::AbandonedByBinary => must_not_err.push(&f.path),
         }
     }
